@@ -427,6 +427,36 @@ def add_mat_theorems(u, cv, la):
                                'b: %s<R>' % N, 't: R'], [], body, asserts, 'C14'))
 
 
+def add_tangent(u, cv):
+    """normalized_tangent(t) = evaluate_derivative(t) / |evaluate_derivative(t)|"""
+    P, N = cv.path, cv.name
+    gh = 'impl<T: Real> %s<T>' % N
+    t = leaf('t.v@')
+    h = hodo(cv.deg, cv.points('self'), t)
+    u.take(P, gh, 'evaluate_derivative', C(ensures=veq(cv.sh, 'res', h)))
+    veccore.add_spatial_basic(u, cv.sh)
+    n2 = X.verus(h.norm2())
+    u.take(P, gh, 'normalized_tangent', C(ensures=['({ let m = sqrt_r(%s); res.%s.v@ == %s / m })' % (n2, f, X.verus(h[i]))
+                                                   for i, f in enumerate(cv.sh.fields)]))
+
+
+def add_circle_and_tangent(u):
+    """CubicBezier2::unit_quarter_circle / unit_circle (the quarter arc and its three mirror images: NE, NW, SW, SE)"""
+    c = Curve(3, 2)
+    k = (const(2) + const(2)) * (app('sqrt_r', ONE + ONE) - ONE) / const(3)
+    ks = X.verus(k)
+    q = {'start': ('1real', '0real'), 'ctrl0': ('1real', ks), 'ctrl1': (ks, '1real'), 'end': ('0real', '1real')}
+    gh = 'impl<T: Real> %s<T>' % c.name
+    u.take(c.path, gh, 'unit_quarter_circle', C(ensures=['res.%s.%s.v@ == %s' % (pn, ax, q[pn][i]) for pn in c.pts for i, ax in enumerate('xy')]))
+    ens = []
+    for idx, (sx, sy) in enumerate((('', ''), ('-', ''), ('-', '-'), ('', '-'))):
+        for pn in c.pts:
+            ens += ['res@[%d].%s.x.v@ == %s(%s)' % (idx, pn, sx, q[pn][0]), 'res@[%d].%s.y.v@ == %s(%s)' % (idx, pn, sy, q[pn][1])]
+    u.take(c.path, gh, 'unit_circle', C(ensures=ens))
+    add_tangent(u, Curve(3, 2))
+    add_tangent(u, Curve(3, 3))
+
+
 def mat_unit(exp, name, deg, lsd):
     import affcore
     u = vec_unit(exp, name, [VEC['Vec2'], VEC['Vec3'], VEC['Vec4']], mats=MATS)
@@ -449,6 +479,11 @@ def mat_unit(exp, name, deg, lsd):
         u.take(cv.path, 'impl<T: Real> %s<T>' % cv.name, 'evaluate', C(ensures=veq(cv.sh, 'res', bern(deg, cv.points('self'), t))))
         add_vector_forms(u, cv)
         add_mat_theorems(u, cv, la)
+    veccore.add_unit_ctors(u)
+    if deg == 3:
+        add_circle_and_tangent(u)
+    else:
+        add_tangent(u, Curve(2, 2)); add_tangent(u, Curve(2, 3))
     add_dim_conversions(u, deg)
     lmx = matrix_lemma(deg)
     u.add_root(lmx.verus_text('C14'))
